@@ -202,7 +202,7 @@ func genRaw(w *gen.Writer, r *gen.Rand, id string, split, auto bool) {
 		if r.Chance(1, 10) {
 			q = randBytes(r, r.Intn(40))
 		}
-		q = strings.NewReplacer("#", "%23", " ", "+").Replace(q)
+		q = uriSafe(q)
 		emitRaw(w, id, "query", split, auto, target, "", q, nil)
 	case k < 11:
 		var hs []string
@@ -276,4 +276,24 @@ func genRaw(w *gen.Writer, r *gen.Rand, id string, split, auto bool) {
 		}
 		emitRaw(w, id, "body", split, auto, target, ct, body, nil)
 	}
+}
+
+// uriSafe makes a raw query string one that fasthttp's URI parser lets through to the handler
+// unchanged: control bytes and '#' percent-encoded (a request line containing them is rejected
+// before any binder runs), ' ' as '+', and no "://" (fasthttp would treat the target as absolute).
+func uriSafe(q string) string {
+	var b strings.Builder
+	for i := 0; i < len(q); i++ {
+		c := q[i]
+		switch {
+		case c < 0x20 || c == 0x7f || c == '#':
+			const hx = "0123456789ABCDEF"
+			b.WriteString("%" + string(hx[c>>4]) + string(hx[c&15]))
+		case c == ' ':
+			b.WriteByte('+')
+		default:
+			b.WriteByte(c)
+		}
+	}
+	return strings.ReplaceAll(b.String(), "://", ":%2F/")
 }
